@@ -302,6 +302,17 @@ fn main() -> Result<()> {
     if env::var_os("VERIF_DUMP_OPT").is_some_and(|mode| mode == "effects") {
         info!("verification run: stopping after the start-up effects");
         println!("VERIF_EFFECTS root_dir={root_dir:?} log_output_dest={log_output_dest:?}");
+        // the EVM network main() resolved above (sub-command and/or environment)
+        println!(
+            "VERIF_EVM resolved={:?}",
+            match &evm_network {
+                EvmNetwork::Custom(custom) => format!(
+                    "evm-custom {} {} {}",
+                    custom.rpc_url_http, custom.payment_token_address, custom.data_payments_address
+                ),
+                other => other.to_string(),
+            }
+        );
         // the run-time configuration the node is about to be built with: the network id and the protocol
         // strings derived from it (lazily, on first access), incl. the one main() already holds
         println!(
